@@ -68,7 +68,12 @@ fn main() {
             }
             let tier = arg(&args, "--tier").map(|s| s.to_string()).or_else(|| std::env::var("VERIF_TIER").ok()).unwrap_or_else(|| "quick".into());
             let tier = if tier == "thorough" { "thorough".to_string() } else { "quick".to_string() };
-            let scenarios = arg(&args, "--scenarios").map(|s| s.parse().expect("--scenarios")).unwrap_or_else(|| driver::tier_scenarios(&prop, &tier));
+            // VERIF_SCENARIOS: used by the self-tests only
+            let scenarios = arg(&args, "--scenarios")
+                .map(|s| s.to_string())
+                .or_else(|| std::env::var("VERIF_SCENARIOS").ok())
+                .map(|s| s.parse().expect("scenario count"))
+                .unwrap_or_else(|| driver::tier_scenarios(&prop, &tier));
             let ncpu = std::thread::available_parallelism().map(|n| n.get() as u64).unwrap_or(4);
             let workers = arg(&args, "--workers").map(|s| s.parse().expect("--workers")).unwrap_or(ncpu.min(16)).max(1);
             let a = driver::RunArgs {
